@@ -34,3 +34,14 @@ package transport
 //@   ensures imp(result.Enable && p.Compress == compress.TypePerMessage, result.DisableContextTakeover)
 //@   ensures imp(result.Enable && p.Compress == compress.TypeContextTakeOver, !result.DisableContextTakeover)
 //@   ensures imp(!result.Enable, result.Level == base.Level && result.WindowBits == base.WindowBits && result.DisableContextTakeover == base.DisableContextTakeover)
+
+// ---------------------------------------------------------------- C17: key/value carrier
+// Before the key/value form is handed to encoding/json (reflection, outside the verifier's reach),
+// every entry is carried over unchanged as a string, except the `reconnect` flag, which becomes
+// the boolean it spells; any other spelling of that flag is rejected.
+//@ define kvCarried(keyvals, converted, k): has(converted, k) && ite(k == "reconnect", typeis(converted[k], bool) && unbox(converted[k], bool) == (keyvals[k] == "true") && (keyvals[k] == "true" || keyvals[k] == "false"), typeis(converted[k], string) && unbox(converted[k], string) == keyvals[k])
+//@ func (*NegotiationParams).UnmarshalKeyValues
+//@   props C17
+//@   assert call json.Marshal: forall(k, string, imp(has(keyvals, k), kvCarried(keyvals, converted, k)))
+//@   loop 1 invariant converted != nil && forall(k, string, imp(visited(k), kvCarried(keyvals, converted, k)))
+//@   ensures imp(has(keyvals, "reconnect") && keyvals["reconnect"] != "true" && keyvals["reconnect"] != "false", result != nil)
